@@ -465,10 +465,9 @@ func c01variant(c *core.Ctx) {
 	dec := map[string]decRow{}
 	ast.Inspect(decodeValue.Body, func(n ast.Node) bool {
 		cc, ok := n.(*ast.CaseClause)
-		if !ok || len(cc.List) != 1 {
+		if !ok || len(cc.List) == 0 {
 			return true
 		}
-		id := types.ExprString(cc.List[0])
 		row := decRow{}
 		ast.Inspect(cc, func(m ast.Node) bool {
 			switch y := m.(type) {
@@ -485,29 +484,34 @@ func c01variant(c *core.Ctx) {
 			}
 			return true
 		})
-		dec[id] = row
+		for _, e := range cc.List {
+			dec[types.ExprString(e)] = row
+		}
 		return true
 	})
 	// 3. encodeValue: case T → primitive
 	enc := map[string]string{}
 	ast.Inspect(encodeValue.Body, func(n ast.Node) bool {
 		cc, ok := n.(*ast.CaseClause)
-		if !ok || len(cc.List) != 1 {
+		if !ok || len(cc.List) == 0 {
 			return true
 		}
-		tv, ok := info.Types[cc.List[0]]
-		if !ok {
-			return true
-		}
-		typ := types.TypeString(tv.Type, func(*types.Package) string { return "" })
-		ast.Inspect(cc, func(m ast.Node) bool {
-			if y, ok := m.(*ast.CallExpr); ok {
-				if sel, ok := y.Fun.(*ast.SelectorExpr); ok && strings.HasPrefix(sel.Sel.Name, "Write") && enc[typ] == "" {
-					enc[typ] = strings.TrimPrefix(sel.Sel.Name, "Write")
-				}
+		// `case A, B, C:` — one arm for several types: the primitive it calls serves each of them
+		for _, e := range cc.List {
+			tv, ok := info.Types[e]
+			if !ok {
+				continue
 			}
-			return true
-		})
+			typ := types.TypeString(tv.Type, func(*types.Package) string { return "" })
+			ast.Inspect(cc, func(m ast.Node) bool {
+				if y, ok := m.(*ast.CallExpr); ok {
+					if sel, ok := y.Fun.(*ast.SelectorExpr); ok && strings.HasPrefix(sel.Sel.Name, "Write") && enc[typ] == "" {
+						enc[typ] = strings.TrimPrefix(sel.Sel.Name, "Write")
+					}
+				}
+				return true
+			})
+		}
 		return true
 	})
 	// 4. isBuiltinType case list
